@@ -262,6 +262,12 @@ class ProcessStartCommand(ProcessCommand):
         """
         # check the process state on the targeted Supvisors instance
         instance_info = self.get_instance_info()
+        if instance_info is None:
+            # the process has been removed from the targeted Supvisors instance since the request
+            # (numprocs decrease, group removed from Supervisor), so no event will ever come
+            self.logger.error(f'ProcessStartCommand.timed_out: {self.process.namespec} not known anymore'
+                              f' on {self.identifier} so abort')
+            return ProcessStates.STARTING, ProcessRequestResult.TIMED_OUT, 0
         process_state = instance_info['state']
         process_state_date = instance_info['event_time']
         # if the evaluation is done in the RUNNING state, the EXITED state must be expected
@@ -363,6 +369,12 @@ class ProcessStopCommand(ProcessCommand):
         """
         # check the process state on the targeted Supvisors instance
         instance_info = self.get_instance_info()
+        if instance_info is None:
+            # the process has been removed from the targeted Supvisors instance since the request
+            # (numprocs decrease, group removed from Supervisor), which only happens once it is stopped
+            self.logger.warn(f'ProcessStopCommand.timed_out: {self.process.namespec} not known anymore'
+                             f' on {self.identifier}')
+            return ProcessStates.STOPPED, ProcessRequestResult.SUCCESS, 0
         process_state = instance_info['state']
         process_state_time = instance_info['event_time']
         if process_state == ProcessStates.STOPPING:
